@@ -68,6 +68,19 @@ Record gst := {
   g_exc : list N                  (* excludeset *)
 }.
 
+(* SyncState.updated(ent, side, "changed", val): the stored change set after one side's stamp is written;
+   [mine] = val is truthy and this side has an oid, [other] = the other side is changed and has an oid *)
+Definition cs_after_changed (cs : list N) (k : N) (mine other : bool) : list N :=
+  if mine || other then kadd k cs else kdel k cs.
+Definition has_oid (s : gside) : bool := negb (isnone (g_oid s)).
+Definition pending (s : gside) : bool := g_changed s && has_oid s.
+(* in the discard branch a change stamp on a side WITHOUT an oid is zeroed *)
+Definition zero_orphan (mine other : bool) (s : gside) : gside :=
+  if mine || other then s
+  else {| g_oid := g_oid s; g_path := g_path s; g_changed := g_changed s && has_oid s; g_exists := g_exists s;
+          g_hash := g_hash s; g_sync_hash := g_sync_hash s; g_sync_path := g_sync_path s;
+          g_size := g_size s; g_mtime := g_mtime s |}.
+
 Definition cleared : gside :=      (* SideState.clear() *)
   {| g_oid := None; g_path := None; g_changed := false; g_exists := XUnknown; g_hash := None;
      g_sync_hash := None; g_sync_path := None; g_size := 0; g_mtime := 0 |}.
@@ -198,14 +211,16 @@ Definition g_request (w : gworld) (st : gst) (e : gent) : gst * option (list N) 
          provider.dirname(None) and the call raises AttributeError AFTER the state-level request took effect *)
       (st1, None)
     | Some _ =>
-      let e2 := {| g_key := g_key e1; g_loc := g_loc e1;
+      let mine := has_oid (g_rem e1) in
+      let other := pending (g_loc e1) in
+      let e2 := {| g_key := g_key e1; g_loc := zero_orphan mine other (g_loc e1);
                    g_rem := {| g_oid := g_oid (g_rem e1); g_path := g_path (g_rem e1); g_changed := true;
                                g_exists := g_exists (g_rem e1); g_hash := g_hash (g_rem e1);
                                g_sync_hash := g_sync_hash (g_rem e1); g_sync_path := g_sync_path (g_rem e1);
                                g_size := g_size (g_rem e1); g_mtime := g_mtime (g_rem e1) |};
                    g_dir := g_dir e1; g_lfresh := g_lfresh e1; g_rfresh := false; g_discarded := g_discarded e1; g_conflicted := g_conflicted e1 |} in
       ({| g_ents := put_ent (g_ents st1) e2;
-          g_changeset := if isnone (g_oid (g_rem e2)) then g_changeset st1 else kadd (g_key e) (g_changeset st1);
+          g_changeset := cs_after_changed (g_changeset st1) (g_key e) mine other;
           g_req := g_req st1; g_exc := g_exc st1 |}, Some (request_plan st1 e1))
     end
   | None => (st1, Some [])
@@ -251,11 +266,13 @@ Definition needs_push (e : gent) : bool :=      (* on the refreshed entry *)
   negb (opt_n_eqb (g_hash (g_loc e)) (g_sync_hash (g_loc e)))
   || negb (opt_path_eqb (g_sync_path (g_loc e)) (g_path (g_loc e))).
 Definition with_local_changed (e : gent) : gent :=
+  let mine := has_oid (g_loc e) in
+  let other := pending (g_rem e) in
   {| g_key := g_key e;
      g_loc := {| g_oid := g_oid (g_loc e); g_path := g_path (g_loc e); g_changed := true; g_exists := g_exists (g_loc e);
                  g_hash := g_hash (g_loc e); g_sync_hash := g_sync_hash (g_loc e); g_sync_path := g_sync_path (g_loc e);
                  g_size := g_size (g_loc e); g_mtime := g_mtime (g_loc e) |};
-     g_rem := g_rem e; g_dir := g_dir e; g_lfresh := g_lfresh e && g_changed (g_loc e); g_rfresh := g_rfresh e;
+     g_rem := zero_orphan mine other (g_rem e); g_dir := g_dir e; g_lfresh := g_lfresh e && g_changed (g_loc e); g_rfresh := g_rfresh e;
      g_discarded := g_discarded e; g_conflicted := g_conflicted e |}.
 (* by_path: smart_unsync_path looks the entry up in the request set first and does nothing at all when it is not there;
    smart_unsync_oid refreshes and pushes first (and then raises TypeError when the entry is not requested) *)
@@ -264,7 +281,9 @@ Definition g_unrequest (w : gworld) (by_path : bool) (st : gst) (e0 : gent) : gs
   let e1 := g_refresh_local w e0 in
   let e := if needs_push e1 then with_local_changed e1 else e1 in
   let push := if needs_push e1 then [GPushLocal (g_key e)] else [] in
-  let cs := if needs_push e1 && negb (isnone (g_oid (g_loc e))) then kadd (g_key e) (g_changeset st) else g_changeset st in
+  let cs0 := if Bool.eqb (g_changed (g_loc e1)) (g_changed (g_loc e0)) then g_changeset st
+             else kadd (g_key e0) (g_changeset st) in      (* the refresh stamped a local side that has an oid *)
+  let cs := if needs_push e1 then cs_after_changed cs0 (g_key e) (has_oid (g_loc e1)) (pending (g_rem e1)) else cs0 in
   if kmem (g_key e) (g_req st) then
     match g_path (g_loc e) with
     | Some p =>
